@@ -28,6 +28,7 @@ RULE = (
     "time and column the value of the physically deepest layer holding data, NaN for a dry column; depth "
     "dimension and coordinates gone; everything else identical.  Non-trivial: floors that differ between "
     "columns, two depth coordinates, depth not the first dimension."
+    ' Also: every subset of layers holding data per column (8^3 patterns, gaps above data), depth coordinates given as one-shot iterators, two depth coordinates sharing one dimension.'
 )
 LEVEL_TEXT = ("all 64 (625) static sea-floor shapes x orientation x order x depth-dimension position x 4 conventions x one/two "
               "depth coordinates x hash seeds, compared with a column scan for the physically deepest valid layer")
